@@ -15,7 +15,7 @@ Inductive tstate := TAbsent | TSame | TDiff.
 Inductive tval := TimeValid | TimeNotYet | TimeExpired.
 Inductive nm := NNone | NMatch | NMismatch.     (* expected name not given / equals the cert's / differs *)
 
-Record case := mk_case {
+Record scase := mk_case {
   rej_dir : bool; tru_dir : bool;               (* the directories exist *)
   in_rej : bool;                                (* rejected/ has a file with this certificate's name *)
   tru : tstate;
@@ -46,7 +46,7 @@ Definition valid_keylength (p : policy) (bits : Z) : bool :=
 Record result := { status : Z; put_rejected : bool; put_trusted : bool }.
 
 (* validate_application_instance_cert, branch for branch *)
-Definition validate (c : case) : result :=
+Definition validate (c : scase) : result :=
   let r s pr pt := {| status := s; put_rejected := pr; put_trusted := pt |} in
   if negb (rej_dir c) then r BadUnexpectedError false false
   else if in_rej c then r BadSecurityChecksFailed false false
@@ -72,7 +72,7 @@ Definition validate (c : case) : result :=
 
 (* validate_or_reject_application_instance_cert: a Bad result other than BadUnexpectedError /
    BadSecurityChecksFailed stores the certificate in rejected/ *)
-Definition validate_or_reject (c : case) : result :=
+Definition validate_or_reject (c : scase) : result :=
   let v := validate c in
   if (status v =? Good) || (status v =? BadUnexpectedError) || (status v =? BadSecurityChecksFailed)
   then v
@@ -82,7 +82,7 @@ Definition b2z (b : bool) : Z := if b then 1 else 0.
 
 (* observable: status class, "a file with the cert's name is in rejected/ afterwards",
    "… in trusted/ afterwards" *)
-Definition run (c : case) : list Z :=
+Definition run1 (c : scase) : list Z :=
   let v := validate_or_reject c in
   [status v;
    b2z (rej_dir c && (in_rej c || put_rejected v));
@@ -90,7 +90,7 @@ Definition run (c : case) : list Z :=
 
 (* ---- the property ---- *)
 (* the statement's conjunction: accepted only if … *)
-Definition spec_accept (c : case) : bool :=
+Definition spec_accept (c : scase) : bool :=
   rej_dir c && tru_dir c &&
   negb (in_rej c) &&
   match tru c with TSame => true | TAbsent => trust_unknown c | TDiff => false end &&
@@ -100,7 +100,7 @@ Definition spec_accept (c : case) : bool :=
     match host c with NMismatch => false | _ => true end &&
     match uri c with NMismatch => false | _ => true end)).
 
-Definition oracle (c : case) (out : list Z) : bool :=
+Definition oracle1 (c : scase) (out : list Z) : bool :=
   match out with
   | [st; rej_after; tru_after] =>
       (* accepted exactly under the configured conditions *)
@@ -114,4 +114,15 @@ Definition oracle (c : case) (out : list Z) : bool :=
   | _ => false
   end.
 
+(* a case is a HISTORY on one CertificateStore instance: before every step the directories are put
+   into the step's state (files added / removed / replaced, flags set through the setters); the
+   verdict of a step must depend on that state only, not on what the instance has seen before *)
+Definition case := list scase.
+Definition run (c : case) : list Z := flat_map run1 c.
+Fixpoint oracle (c : case) (out : list Z) : bool :=
+  match c, out with
+  | [], [] => true
+  | s :: c', a :: b :: d :: out' => oracle1 s [a; b; d] && oracle c' out'
+  | _, _ => false
+  end.
 Definition known (c : case) : Z := 0.
